@@ -7,8 +7,10 @@ give an object of the same class with the same serialization, or fail likewise.
 """
 import json
 import os
+import re
 import shutil
 import tempfile
+import zlib
 
 from hypothesis import strategies as st
 
@@ -321,7 +323,7 @@ def check_produced(case):
     return []
 
 
-OPTS = {"ts_max_digits": 3, "selectors": "none", "max_optional": 2, "plain_strings": True, "no_extensions": True, "min_year": 1971}
+OPTS = {"ts_max_digits": 6, "selectors": "none", "max_optional": 2, "plain_strings": True, "no_extensions": True, "min_year": 1971}
 
 
 def to_flavour(doc, ver, flavour):
@@ -329,6 +331,12 @@ def to_flavour(doc, ver, flavour):
     d = dict(doc)
     if flavour == "no-spec_version":
         d.pop("spec_version", None)
+    if flavour == "us-timestamps":
+        # 2.0 content whose created / modified carry microseconds: 2.0 keeps milliseconds, 2.1 keeps them all -- whoever interprets the
+        # content under another version than the one named, or twice, shows it in these digits
+        for k in ("created", "modified"):
+            if isinstance(d.get(k), str) and re.search(r"\.\d{3}Z$", d[k]):
+                d[k] = d[k][:-1] + "456Z"
     return d
 
 
@@ -346,7 +354,7 @@ def run(ctx):
 
     def body(args):
         ver, doc, rot = args
-        flavours = ["as-is"] + (["no-spec_version"] if ver == "2.1" and "spec_version" in doc else [])
+        flavours = ["as-is"] + (["no-spec_version"] if ver == "2.1" and "spec_version" in doc else []) + (["us-timestamps"] if ver == "2.0" and "modified" in doc else [])
         k = combo = 0
         for flavour in flavours:
             d = to_flavour(doc, ver, flavour)
@@ -361,7 +369,7 @@ def run(ctx):
                         entries = list(entries) + ["parse_observable"]     # observables: the dedicated entry point must agree with parse()
                     for entry in dict.fromkeys(entries):
                         k += 1
-                        allow = (rot + k) % 3 == 0
+                        allow = zlib.crc32(("%d:%d:%s" % (rot, combo, entry)).encode()) % 3 == 0     # (arithmetic on k correlates with the entry rotation)
                         case = {"ver": ver, "doc": d, "id_kind": id_kind, "version": v, "entry": entry, "allow_custom": allow, "flavour": flavour}
                         fails = check_case(case)
                         nt = id_kind != "valid" or flavour != "as-is" or (v is not None and v != ver)
